@@ -253,3 +253,194 @@ pub fn witness_c09frame() -> bool {
     }
     bad
 }
+
+
+/// C10 witness (native, real store actors over in-memory duplex streams):
+///  (a) a request declined by the accept callback is answered with Abort, reported as Abort{..} and leaves the
+///      accepting store unchanged even if the Init frame already carries signed entries;
+///  (b) the initiator's replica is closed between Init and the first Sync reply: run_alice must end with a
+///      reported error, not panic and not report success;
+///  (c) a normal session between two replicas ends Ok on both sides with mirrored sent / received counts, and a
+///      second session transfers nothing;
+///  (d) unexpected frames (Sync before Init, Init twice, Abort) end the acceptor with a reported error.
+#[cfg(not(kani))]
+pub fn witness_c10steps() -> bool {
+    use crate::actor::OpenOpts;
+    use crate::store::{Query, Store};
+    use crate::NamespaceSecret;
+    use n0_future::SinkExt as _;
+    use tokio::io::AsyncWriteExt;
+    use tokio_stream::StreamExt as _;
+    let rt = tokio::runtime::Builder::new_multi_thread().worker_threads(2).enable_all().build().unwrap();
+    let bad = rt.block_on(async {
+        let mut bad = false;
+        let secret = NamespaceSecret::from_bytes(&[61u8; 32]);
+        let namespace = secret.id();
+        let author = crate::Author::from_bytes(&[62u8; 32]);
+        let dialer_id = iroh::SecretKey::from_bytes(&[7u8; 32]).public();
+        let bob_id = iroh::SecretKey::from_bytes(&[2u8; 32]).public();
+        let mk_handle = |entries: &[&str], name: &str| {
+            let mut store = Store::memory();
+            store.import_author(author.clone()).unwrap();
+            let mut replica = store.new_replica(secret.clone()).unwrap();
+            for k in entries {
+                crate::verif_incrate::witness::block_on(replica.hash_and_insert(k, &author, k)).unwrap();
+            }
+            drop(replica);
+            store.close_replica(namespace);
+            SyncHandle::spawn(store, None, name.to_string())
+        };
+        // ---------------- (a) declined request
+        {
+            // a message carrying one signed entry
+            let mut empty = Store::memory();
+            let init_of_empty = empty.new_replica(secret.clone()).unwrap().sync_initial_message().unwrap();
+            let mut ds = Store::memory();
+            let mut dr = ds.new_replica(secret.clone()).unwrap();
+            dr.hash_and_insert("smuggled", &author, "payload").await.unwrap();
+            let with_entries = dr.sync_process_message(init_of_empty, [9u8; 32], &mut Default::default()).await.unwrap().expect("reply with items");
+            drop(dr);
+            let bob = mk_handle(&[], "bob-a");
+            bob.open(namespace, OpenOpts::default().sync()).await.unwrap();
+            let (d, b) = tokio::io::duplex(1 << 16);
+            let (br, bw) = tokio::io::split(b);
+            let (dr2, dw) = tokio::io::split(d);
+            let mut dw = FramedWrite::new(dw, SyncCodec);
+            dw.send(Message::Init { namespace, message: with_entries }).await.unwrap();
+            dw.get_mut().shutdown().await.unwrap();
+            let mut state = BobState::new(dialer_id);
+            let res = tokio::time::timeout(std::time::Duration::from_secs(10), state.run(bw, br, bob.clone(), |_ns, _peer| std::future::ready(AcceptOutcome::Reject(AbortReason::AlreadySyncing)))).await;
+            match res {
+                Ok(Err(AcceptError::Abort { reason: AbortReason::AlreadySyncing, .. })) => {}
+                other => {
+                    eprintln!("c10steps(a): a declined request was not reported as Abort: {:?}", other.map(|r| r.map(|_| ())));
+                    bad = true;
+                }
+            }
+            let mut dr2 = FramedRead::new(dr2, SyncCodec);
+            if !matches!(dr2.next().await, Some(Ok(Message::Abort { reason: AbortReason::AlreadySyncing }))) {
+                eprintln!("c10steps(a): the dialer was not told that the request was declined");
+                bad = true;
+            }
+            let _ = state.into_outcome();
+            let mut st = bob.shutdown().await.unwrap();
+            let n = st.get_many(namespace, Query::all()).unwrap().count();
+            if n != 0 {
+                eprintln!("c10steps(a): a declined request changed the accepting store ({n} entries)");
+                bad = true;
+            }
+        }
+        // ---------------- (b) initiator's replica closed mid-session
+        {
+            let alice = mk_handle(&["hello"], "alice-b");
+            alice.open(namespace, OpenOpts::default().sync()).await.unwrap();
+            let (a, b) = tokio::io::duplex(1 << 16);
+            let (mut ar, mut aw) = tokio::io::split(a);
+            let (br, bw) = tokio::io::split(b);
+            let h = alice.clone();
+            let task = tokio::task::spawn(async move { run_alice(&mut aw, &mut ar, &h, namespace, bob_id).await });
+            let mut br = FramedRead::new(br, SyncCodec);
+            let mut bw = FramedWrite::new(bw, SyncCodec);
+            match br.next().await {
+                Some(Ok(Message::Init { message, .. })) => {
+                    let _ = alice.close(namespace).await;
+                    bw.send(Message::Sync(message)).await.unwrap();
+                    match tokio::time::timeout(std::time::Duration::from_secs(10), task).await {
+                        Ok(Ok(Err(_))) => {}
+                        Ok(Ok(Ok(_))) => {
+                            eprintln!("c10steps(b): processing on a closed replica was reported as success");
+                            bad = true;
+                        }
+                        Ok(Err(e)) => {
+                            eprintln!("c10steps(b): run_alice did not end cleanly (panic): {e}");
+                            bad = true;
+                        }
+                        Err(_) => {
+                            eprintln!("c10steps(b): run_alice waits forever");
+                            bad = true;
+                        }
+                    }
+                }
+                _ => {
+                    eprintln!("c10steps(b): the initiator did not start with Init");
+                    bad = true;
+                }
+            }
+            let _ = alice.shutdown().await;
+        }
+        // ---------------- (c) full sessions: mirrored counts, second session silent
+        {
+            let alice = mk_handle(&["a1", "a2", "shared"], "alice-c");
+            let bob = mk_handle(&["b1", "shared"], "bob-c");
+            alice.open(namespace, OpenOpts::default().sync()).await.unwrap();
+            bob.open(namespace, OpenOpts::default().sync()).await.unwrap();
+            for round in 0..2 {
+                let (a, b) = tokio::io::duplex(1 << 16);
+                let (mut ar, mut aw) = tokio::io::split(a);
+                let (br, bw) = tokio::io::split(b);
+                let h = alice.clone();
+                let at = tokio::task::spawn(async move { run_alice(&mut aw, &mut ar, &h, namespace, bob_id).await });
+                let mut state = BobState::new(dialer_id);
+                let bres = tokio::time::timeout(std::time::Duration::from_secs(20), state.run(bw, br, bob.clone(), |_ns, _peer| std::future::ready(AcceptOutcome::Allow))).await;
+                let ares = tokio::time::timeout(std::time::Duration::from_secs(20), at).await;
+                let bout = state.into_outcome();
+                match (ares, bres) {
+                    (Ok(Ok(Ok(aout))), Ok(Ok(ns))) => {
+                        if ns != namespace || aout.num_sent != bout.num_recv || aout.num_recv != bout.num_sent {
+                            eprintln!("c10steps(c): round {round}: counts do not mirror: alice sent {} recv {}, bob sent {} recv {}", aout.num_sent, aout.num_recv, bout.num_sent, bout.num_recv);
+                            bad = true;
+                        }
+                        if round == 1 && (aout.num_sent != 0 || aout.num_recv != 0) {
+                            eprintln!("c10steps(c): a second session between equal replicas transferred entries");
+                            bad = true;
+                        }
+                    }
+                    _ => {
+                        eprintln!("c10steps(c): round {round}: a healthy session did not succeed on both sides");
+                        bad = true;
+                    }
+                }
+            }
+            let mut sa = alice.shutdown().await.unwrap();
+            let mut sb = bob.shutdown().await.unwrap();
+            let ka: Vec<_> = sa.get_many(namespace, Query::all()).unwrap().map(|e| e.unwrap().key().to_vec()).collect();
+            let kb: Vec<_> = sb.get_many(namespace, Query::all()).unwrap().map(|e| e.unwrap().key().to_vec()).collect();
+            if ka != kb || ka.len() != 4 {
+                eprintln!("c10steps(c): replicas differ after a complete session: {} vs {} entries", ka.len(), kb.len());
+                bad = true;
+            }
+        }
+        // ---------------- (d) unexpected frames on the accepting side
+        for script in 0..3 {
+            let bob = mk_handle(&["b1"], "bob-d");
+            bob.open(namespace, OpenOpts::default().sync()).await.unwrap();
+            let (d, b) = tokio::io::duplex(1 << 16);
+            let (br, bw) = tokio::io::split(b);
+            let (_dr, dw) = tokio::io::split(d);
+            let mut dw = FramedWrite::new(dw, SyncCodec);
+            match script {
+                0 => dw.send(Message::Sync(empty_message())).await.unwrap(),
+                1 => dw.send(Message::Abort { reason: AbortReason::NotFound }).await.unwrap(),
+                _ => {
+                    let mut e = Store::memory();
+                    let m1 = e.new_replica(secret.clone()).unwrap().sync_initial_message().unwrap();
+                    let mut e2 = Store::memory();
+                    let m2 = e2.new_replica(secret.clone()).unwrap().sync_initial_message().unwrap();
+                    dw.send(Message::Init { namespace, message: m1 }).await.unwrap();
+                    dw.send(Message::Init { namespace, message: m2 }).await.unwrap();
+                }
+            }
+            dw.get_mut().shutdown().await.unwrap();
+            let mut state = BobState::new(dialer_id);
+            let res = tokio::time::timeout(std::time::Duration::from_secs(10), state.run(bw, br, bob.clone(), |_ns, _peer| std::future::ready(AcceptOutcome::Allow))).await;
+            if !matches!(res, Ok(Err(_))) {
+                eprintln!("c10steps(d): unexpected frame script {script} did not end with a reported error");
+                bad = true;
+            }
+            let _ = state.into_outcome();
+            let _ = bob.shutdown().await;
+        }
+        bad
+    });
+    bad
+}
